@@ -78,7 +78,7 @@ def _run(chk, tier):
     r = common.rng("C04")
     quick = tier == "quick"
     stats = collections.Counter()
-    cases, dist = viewcorr.make_cases(chk, r, 9 if quick else 22, corpus_prop=PROP,
+    cases, dist = viewcorr.make_cases(chk, r, 9 if quick else 16, corpus_prop=PROP,
                                       testdata=viewcorr.TESTDATA[:6] if quick else viewcorr.TESTDATA,
                                       null_order_modules=1 if quick else 4)
     pinned = _pinned(chk)
@@ -87,7 +87,7 @@ def _run(chk, tier):
         builds += [("clang++ -std=c++17 -O1", dict(std="c++17", compiler="clang++", opt="-O1", defines=()), "OBS"),
                    ("g++ -std=c++11 -O1 -DEMBOSS_NO_OPTIMIZATIONS",
                     dict(std="c++11", compiler="g++", opt="-O1", defines=("EMBOSS_NO_OPTIMIZATIONS",)), "OBS"),
-                   ("g++ -std=c++17 -O2 aligned", dict(std="c++17", compiler="g++", opt="-O2", defines=()), "OBSA")]
+                   ("g++ -std=c++17 -O1 aligned", dict(std="c++17", compiler="g++", opt="-O1", defines=()), "OBSA")]
     for label, kw, op_obs in builds:
         feats = ("obsa", "wr", "eq", "cp") if op_obs == "OBSA" else ("obs", "wr", "eq", "cp")
         allc = cases + [c for _k, c, _cmds in pinned]
